@@ -54,6 +54,9 @@ type Chan struct {
 	closed bool
 	elem   types.Type
 	name   string
+	// time.Timer channels: a timer fires once and must be re-armed with Reset (C17h)
+	timer    bool
+	disarmed bool
 }
 
 var chanSeq int
